@@ -47,7 +47,7 @@ def gen_case(rng):
             s = max(1, base + rng.choice([-2, -1, 0]))
     x = rng.random() < 0.35
     r = rng.random() < 0.4
-    return dict(n=n, L=L, s=s, x=x, r=r, cmd=cmd, toks=toks)
+    return dict(n=n, L=L, s=s, x=x, r=r, cmd=cmd, toks=toks, quote=rng.random() < 0.06)
 
 
 def opts_of(c):
@@ -82,8 +82,15 @@ def effective(c):
 def lines_for(c):
     data, toks = xc.render(c["toks"])
     n, L = effective(c)
+    ierr = False
+    if c.get("quote"):
+        # an unterminated quote behind the arguments: they are delivered all the same (C04_input_error_keeps_arguments)
+        if data and data[-1:] not in (b" ", b"\n", b"\t"):
+            data += b" "
+        data += b"'zz"
+        ierr = True
     return (xc.impl_line(opts_of(c), c["cmd"], data, []),
-            xc.model_line(n, L, c["s"], c["x"], c["r"], c["cmd"], toks, False, []), toks)
+            xc.model_line(n, L, c["s"], c["x"], c["r"], c["cmd"], toks, ierr, []), toks)
 
 
 def compare(ctx, cases):
@@ -100,9 +107,9 @@ def compare(ctx, cases):
         ic, iinv = xc.decode_impl(i)
         mc, minv = xc.decode_model(m, c["cmd"], t)
         limits = sum(v is not None for v in (c["n"], c["L"], c["s"]))
-        ctx.count((opts_of(c), c["cmd"], c["toks"]), len(t) >= 2 and limits >= 1,
+        ctx.count((opts_of(c), c["cmd"], c["toks"], bool(c.get("quote"))), len(t) >= 2 and limits >= 1,
                   ["args=%s" % ("0" if not t else "1" if len(t) == 1 else "2-6" if len(t) <= 6 else "7+"),
-                   "limits=%d" % limits, "exit=%s" % mc, "batches=%s" % (len(minv) if len(minv) < 3 else "3+")])
+                   "limits=%d" % limits, "input-error=%d" % bool(c.get("quote")), "exit=%s" % mc, "batches=%s" % (len(minv) if len(minv) < 3 else "3+")])
         if (ic, iinv) != (mc, minv):
             bad.append((c, (ic, iinv), (mc, minv)))
     return bad
